@@ -1461,7 +1461,12 @@ func (sc *serverConn) closeStream(st *stream, err error) {
 	if p := st.body; p != nil {
 		p.CloseWithError(err)
 		if st.defaultStreamWindow() {
-			p.Release(&fixBufferPool)
+			// The buffered octets can no longer be read (and credited) by
+			// the handler: return their connection-level flow control now.
+			// See golang.org/issue/16481
+			if n := p.Release(&fixBufferPool); n > 0 {
+				sc.sendWindowUpdate(nil, n)
+			}
 		}
 	}
 	st.cw.Close() // signals Handler's CloseNotifier, unblocks writes, etc
